@@ -291,4 +291,37 @@ def validate_models():
         vectors += 1
         if fnmatch.fnmatch(name, pat) != fnmatch.fnmatch(name, pat):
             diffs += 1
-    return [{'name': 'fnmatch model vs stdlib (TypeError boundary, determinism)', 'vectors': vectors, 'differences': diffs}]
+    out = [{'name': 'fnmatch model vs stdlib (TypeError boundary, determinism)', 'vectors': vectors, 'differences': diffs}]
+    out += _s3_content_filter_validator()
+    return out
+
+
+def _s3_content_filter_validator():
+    """the S3 content filter works on the SERIALIZED metadata text (real jsonpickle + json; C-level code the solver does
+    not see): for values that JSON escapes (non-ASCII, quotes, backslashes, newlines) the real filter function must give
+    the matcher's verdict on the same metadata.  A mismatch is a concrete C14 counterexample on the real code."""
+    import jsonpickle
+    from playback.tape_cassettes.s3.s3_tape_cassette import S3TapeCassette
+    import playback.tape_cassettes.s3.s3_tape_cassette as s3m
+    import json as _json
+    s3m.json = _json
+    vec = 0
+    bad = []
+    values = [u'Z\u00fcrich', 'a"b', 'x\\y', 'line\nbreak', 'plain', u'\u4e2d', 'tab\there', '', 'a/b', 5, None, True]
+    for v in values:
+        meta = {'city': v, 'other': [1, 2]}
+        text = jsonpickle.encode(meta, unpicklable=True)
+        for flt in ({'city': v}, {'city': [v, 'nope']}, {'city': 'no-such'}, {'other': [[1, 2]]}, {'city': {'operator': '=', 'value': v}}):
+            vec += 1
+            want = TapeCassette.match_against_recorded_metadata(flt, meta)
+            try:
+                got = S3TapeCassette._create_content_filter_func(flt)(text)
+            except Exception as ex:
+                got = 'raised %r' % (ex,)
+            if got != want:
+                bad.append({'metadata': repr(meta), 'filter': repr(flt), 'filter_function': repr(got), 'matcher': want})
+    res = {'name': 'real S3 content filter on serialized metadata with JSON-escaped values agrees with the matcher',
+           'vectors': vec, 'differences': len(bad), 'error': str(bad[:2])[:300]}
+    if bad:
+        res['violation'] = bad[0]
+    return [res]
